@@ -429,7 +429,7 @@ parse_t9(int argc, char ** argv, int limit)
 	}
 }
 
-/* Table 10 (702 slots) is at the end of the file: it changes __LINE__. */
+/* Table 10 (272 slots) is at the end of the file: it changes __LINE__. */
 static void parse_t10(int, char **, int);
 
 /* Table 11: the whole switch on one line: a table of zero slots. */
@@ -702,9 +702,9 @@ main(void)
 }
 
 /*
- * Table 10: a sparse table of 702 slots (an option switch in the style of a
+ * Table 10: a sparse table of 272 slots (an option switch in the style of a
  * large program: several hundred source lines), labels in slots 1, 255, 256,
- * 259 and in the last two slots (700, 701: compact, falling into the default
+ * 259 and in the last two slots (270, 271: compact, falling into the default
  * block).  "#line" makes the GETOPT_SWITCH line 1000; nothing follows this
  * function.
  */
@@ -725,7 +725,7 @@ parse_t10(int argc, char ** argv, int limit)
 			rec(ch, optarg);
 			break;
 		GETOPT_OPTARG("--max"): rec("--max", optarg); break;
-#line 1700
+#line 1270
 		GETOPT_OPTARG("-z"):
 		GETOPT_OPTARG("--zz"):
 		GETOPT_DEFAULT:
